@@ -62,6 +62,7 @@ type baseOpts struct {
 	big       bool // allow long logs so that reports exceed the 4096-byte writer buffers
 	plainOnly bool
 	longNames bool // allow one food name of 4096..12000 bytes (written straight through a bufio.Writer)
+	hugeFiles bool // allow files larger than 64 KiB (comment padding)
 }
 
 func genCLIBase(t *rapid.T, o baseOpts) CLIBase {
@@ -86,6 +87,13 @@ func genCLIBase(t *rapid.T, o baseOpts) CLIBase {
 			b.Log[d].Items[i].Name = long
 		} else {
 			b.Log = append(b.Log, Block{Head: "2021/01/20", Items: []Item{{long, "1"}}})
+		}
+	}
+	if o.hugeFiles && len(b.Log) > 0 && rapid.IntRange(0, 9).Draw(t, "huge_file") == 9 {
+		// more than the 64 KiB the line scanner ever buffers
+		b.Log[rapid.IntRange(0, len(b.Log)-1).Draw(t, "pad_log_after")].PadAfter = 70000
+		if len(b.Book) > 0 && rapid.Bool().Draw(t, "pad_book") {
+			b.Book[rapid.IntRange(0, len(b.Book)-1).Draw(t, "pad_book_after")].PadAfter = 70000
 		}
 	}
 	if o.plainOnly {
@@ -161,6 +169,9 @@ func genC17(thorough bool) func(t *rapid.T) Case {
 	return func(t *rapid.T) Case {
 		c := &CaseC17{Only: -1}
 		c.Base = genCLIBase(t, baseOpts{shapes: names, book: BookOpts{MaxRecipes: 6}, log: LogOpts{MaxDays: 5}, big: true, plainOnly: true, longNames: true})
+		if rapid.IntRange(0, 3).Draw(t, "extra_locals") == 3 {
+			c.Base.Inv.Locals = genExtraLocals(t, c.Base.Inv.Shape)
+		}
 		c.SinkKind = rapid.SampledFrom([]string{"ENOSPC", "EPIPE"}).Draw(t, "sink_kind")
 		c.Short = rapid.Bool().Draw(t, "short_write")
 		c.MaxExhaustive = 600
